@@ -4,7 +4,7 @@
 From Coq Require Import List NArith Lia ZifyN ZifyNat ZifyBool ZArith Bool.
 From Coq Require Import Strings.Byte.
 From GoBT Require Import lib.Bytes lib.Checked lib.VarInt model.Tx model.Push spec.PushSpec proofs.PushProofs
-  model.Inscription spec.OrdSpec.
+  model.Inscription.
 From GoBT Require model.Fees.
 Import ListNotations.
 Local Open Scope N_scope.
@@ -208,16 +208,24 @@ Lemma inscription_toks_ok h20 ct data enriched : length h20 = 20%nat ->
   lenN ct < 4294967296 -> lenN data < 4294967296 -> enriched_ok enriched ->
   Forall tok_ok (inscription_toks h20 ct data enriched).
 Proof.
-  intros H20 Hct Hd He. unfold inscription_toks. repeat apply Forall_app; repeat split.
-  - repeat constructor; try (apply np; reflexivity).
-    cbn [tok_ok]. replace [x14] with [n2b (lenN h20)] by (unfold lenN; rewrite H20; reflexivity).
-    apply ph_direct. unfold lenN. rewrite H20. lia.
-  - repeat constructor; try (apply np; reflexivity); try (apply push_tok_ok; assumption).
-    cbn [tok_ok]. change [x03] with [n2b (lenN ordinals_prefix)]. apply ph_direct. cbn. lia.
-  - destruct enriched as [[|d dd]|]; cbn [enriched_toks]; try constructor.
-    + apply np; reflexivity.
-    + cbn [enriched_ok] in He. apply Forall_map. eapply Forall_impl; [|exact He].
-      intros a Ha. apply push_tok_ok. exact Ha.
+  intros H20 Hct Hd He. unfold inscription_toks. apply Forall_app; split; [|apply Forall_app; split].
+  - unfold p2pkh_toks.
+    apply Forall_cons; [apply np; reflexivity|]. apply Forall_cons; [apply np; reflexivity|].
+    apply Forall_cons.
+    { cbn [tok_ok]. replace [x14] with [n2b (lenN h20)] by (unfold lenN; rewrite H20; reflexivity).
+      apply ph_direct. unfold lenN. rewrite H20. lia. }
+    apply Forall_cons; [apply np; reflexivity|]. apply Forall_cons; [apply np; reflexivity|]. apply Forall_nil.
+  - unfold envelope_toks.
+    apply Forall_cons; [apply np; reflexivity|]. apply Forall_cons; [apply np; reflexivity|].
+    apply Forall_cons.
+    { cbn [tok_ok]. change [x03] with [n2b (lenN ordinals_prefix)]. apply ph_direct. cbn. lia. }
+    apply Forall_cons; [apply np; reflexivity|]. apply Forall_cons; [apply push_tok_ok; assumption|].
+    apply Forall_cons; [apply np; reflexivity|]. apply Forall_cons; [apply push_tok_ok; assumption|].
+    apply Forall_cons; [apply np; reflexivity|]. apply Forall_nil.
+  - destruct enriched as [[|d dd]|]; cbn [enriched_toks]; try apply Forall_nil.
+    apply Forall_cons; [apply np; reflexivity|].
+    cbn [enriched_ok] in He. apply Forall_map. eapply Forall_impl; [|exact He].
+    intros a Ha. apply push_tok_ok. exact Ha.
 Qed.
 
 Lemma append_ign_2 s : append_opcodes_ign s [OpFALSE; OpIF] = s ++ [x00; x63]. Proof. reflexivity. Qed.
@@ -243,7 +251,7 @@ Proof.
   rewrite append_ign_2. rewrite (append_push_data_tok _ ordinals_prefix) by (cbn; lia).
   rewrite append_ign_1. rewrite (append_push_data_tok _ ct Hct).
   rewrite append_ign_0. rewrite (append_push_data_tok _ data Hd). rewrite append_ign_e.
-  assert (forall tail, ((((((p2pkh_script h20 ++ [x00; x63]) ++ tok_bytes (push_tok ordinals_prefix)) ++ [x51]) ++
+  assert (forall tail, (((((((p2pkh_script h20 ++ [x00; x63]) ++ tok_bytes (push_tok ordinals_prefix)) ++ [x51]) ++
              tok_bytes (push_tok ct)) ++ [x00]) ++ tok_bytes (push_tok data)) ++ [x68]) ++ tail =
           toks_bytes (p2pkh_toks h20 ++ envelope_toks ct data) ++ tail) as E.
   { intros tail. rewrite toks_bytes_app. unfold toks_bytes, p2pkh_toks, envelope_toks, p2pkh_script.
@@ -281,8 +289,8 @@ Lemma toks_prefix h20 ct data enriched :
   toks_bytes (inscription_toks h20 ct data enriched) =
   p2pkh_script h20 ++ toks_bytes (envelope_toks ct data ++ enriched_toks enriched).
 Proof.
-  unfold inscription_toks. rewrite toks_bytes_app. f_equal.
-  unfold toks_bytes, p2pkh_toks, p2pkh_script. cbn [map concat tok_bytes]. repeat rewrite <- app_assoc. reflexivity.
+  unfold inscription_toks. rewrite toks_bytes_app. f_equal;
+  unfold toks_bytes, p2pkh_toks, p2pkh_script; cbn [map concat tok_bytes]; repeat rewrite <- app_assoc; reflexivity.
 Qed.
 
 Lemma helper_true h20 ct data enriched :
@@ -339,7 +347,7 @@ Qed.
 Theorem parse_inscription_total s : parse_inscription s <> PIPanic.
 Proof.
   unfold parse_inscription. pose proof (decode_parts_total s) as [Hp Hf].
-  destruct (decode_parts s) as [p|p| |] eqn:D; try congruence; [|discriminate].
+  destruct (decode_parts s) as [p|p| |] eqn:D; try congruence; try discriminate.
   destruct (lenN s <? 25) eqn:L; cbn [orb]; [discriminate|].
   destruct (Fees.is_p2pkh_inscription_parts p) eqn:Hh; cbn [negb]; [|discriminate].
   assert (13 <= length p)%nat as H13.
